@@ -32,14 +32,12 @@ class _Mem(StubMemory):
     strings = None
 
 
-def _arrays(base, base_by_dim=False):
-    a = object.__new__(arrays_mod.Arrays)
-    a._memory = _Mem()
-    a._values = values_env()
-    a._dims = {}
-    a._buffers = {}
-    a._array_memory = {}
-    a.current = 0
+def _arrays(base, base_by_dim=False, E=None):
+    """An Arrays object built by its real constructor, then put into the given base state."""
+    if E is not None:
+        a = E.new(arrays_mod.Arrays, _Mem(), values_env())
+    else:
+        a = arrays_mod.Arrays(_Mem(), values_env())
     a._base = base
     a._base_set_by_dim = base_by_dim
     return a
@@ -53,9 +51,23 @@ def _in_bounds(ix, dims, base):
     return And(*[And(i >= base, i <= d) for i, d in zip(ix, dims)])
 
 
-def t_index(E, rank, base):
-    arr = _arrays(base)
-    dims = _dims(E, rank, base)
+def t_index(E, rank, base, history=False, maxd=MAXD):
+    arr = _arrays(base, E=E)
+    if history:
+        # the same shape was used earlier in the session under the other OPTION BASE (then CLEAR)
+        other = 1 - base
+        arr._base = other
+        hd = [E.int('h%d' % i, other, maxd) for i in range(rank)]
+        E.call(arr.allocate, b'H!', hd)
+        E.call(arr.index, [other] * rank, hd)
+        E.call(arr.flat_length, hd)
+        E.call(arr.clear)
+        E.call(arr.clear_base)
+        E.call(arr.option_base_, [base])
+        dims = hd
+        E.assume(And(*[d >= base for d in dims]))
+    else:
+        dims = _dims(E, rank, base)
     a = [E.int('a%d' % i, 0, MAXD) for i in range(rank)]
     b = [E.int('b%d' % i, 0, MAXD) for i in range(rank)]
     E.assume(_in_bounds(a, dims, base))
@@ -77,7 +89,7 @@ def t_index(E, rank, base):
 
 
 def t_view_buffer(E, rank, base, name):
-    arr = _arrays(base)
+    arr = _arrays(base, E=E)
     dims = _dims(E, rank, base)
     size = values.size_bytes(name)
     out = E.call(arr.allocate, name, dims)
@@ -103,7 +115,7 @@ def t_view_buffer(E, rank, base, name):
 
 def t_check_dim(E, rank, base, declared):
     """Error behaviour of subscripts (check_dim is what every array access goes through)."""
-    arr = _arrays(base)
+    arr = _arrays(base, E=E)
     name = b'A!'
     if declared:
         dims = _dims(E, rank, base)
@@ -145,7 +157,7 @@ def t_check_dim(E, rank, base, declared):
 
 def t_allocate(E, rank, base_state):
     """base_state: None (unset), 0, 1."""
-    arr = _arrays(base_state)
+    arr = _arrays(base_state, E=E)
     name = b'B%'
     dims = [E.int('d%d' % i, -5, MAXD) for i in range(rank)]
     exists = E.bool('exists')
@@ -191,7 +203,7 @@ def t_allocate(E, rank, base_state):
 
 
 def t_erase(E, base):
-    arr = _arrays(base, base_by_dim=E.bool('by_dim'))
+    arr = _arrays(base, base_by_dim=E.bool('by_dim'), E=E)
     by_dim = arr._base_set_by_dim
     d1 = [E.int('p', base, 200)]
     d2 = [E.int('q', base, 200), E.int('r', base, 50)]
@@ -225,7 +237,7 @@ def t_erase(E, base):
 
 
 def t_option_base(E, cur, new):
-    arr = _arrays(cur)
+    arr = _arrays(cur, E=E)
     r = E.call(arr.option_base_, [new])
     if cur is not None and cur != new:
         E.prove(r.is_error(BASICError, error.DUPLICATE_DEFINITION), 'changing a set base: Duplicate definition')
@@ -236,6 +248,8 @@ def t_option_base(E, cur, new):
 
 TASKS = [
     Task('Arrays.index', t_index, cases=[{'rank': r, 'base': b} for r in (1, 2, 3, 4) for b in (0, 1)]),
+    Task('Arrays.index (same shape used earlier under the other base)', t_index,
+         cases=[{'rank': r, 'base': b, 'history': True, 'maxd': m} for r in (1, 2, 3) for b in (0, 1) for m in (3, MAXD)]),
     Task('Arrays.view_buffer', t_view_buffer,
          cases=[{'rank': r, 'base': b, 'name': n} for r in (1, 2, 3) for b in (0, 1) for n in (b'A%', b'S$', b'D#')]),
     Task('Arrays.check_dim', t_check_dim, covers=('raises', 'returns'),
